@@ -1,6 +1,7 @@
 from __future__ import annotations
 
 import sys
+from typing import Optional
 
 import trio
 
@@ -27,6 +28,7 @@ class Lifespan:
         ](config.max_app_queue_size)
         self.state = state
         self.supported = True
+        self.failure: Optional[LifespanFailureError] = None
 
     async def handle_lifespan(
         self, *, task_status: trio.TaskStatus = trio.TASK_STATUS_IGNORED
@@ -45,6 +47,9 @@ class Lifespan:
                 trio.to_thread.run_sync,
                 trio.from_thread.run,
             )
+            if self.failure is not None:
+                # The app caught the error raised when it sent the failure
+                raise self.failure
         except (LifespanFailureError, trio.Cancelled):
             raise
         except (BaseExceptionGroup, Exception) as error:
@@ -101,8 +106,10 @@ class Lifespan:
         elif message["type"] == "lifespan.shutdown.complete":
             self.shutdown.set()
         elif message["type"] == "lifespan.startup.failed":
-            raise LifespanFailureError("startup", message.get("message", ""))
+            self.failure = LifespanFailureError("startup", message.get("message", ""))
+            raise self.failure
         elif message["type"] == "lifespan.shutdown.failed":
-            raise LifespanFailureError("shutdown", message.get("message", ""))
+            self.failure = LifespanFailureError("shutdown", message.get("message", ""))
+            raise self.failure
         else:
             raise UnexpectedMessageError(message["type"])
